@@ -94,23 +94,41 @@ def parse_frame_line(line):
     return int(t[1]), int(t[2]), t[3], int(t[4]), [unhx(c) for c in t[5]]
 
 
-def run_frame(line):
-    """Run the real generator on a `frame` request; returns the canonical response."""
-    skip, trim, kind, r, chunks = parse_frame_line(line)
+def _run_frame_once(skip, trim, kind, r, chunks, show_progress):
+    import contextlib, io as _io
     total = sum(len(c) for c in chunks)
     src, kw = make_source(kind, r, chunks)
-    gen = generator_with_trim(trim)(src, skip_header_bytes=skip, **kw)
+    if show_progress:
+        kw = dict(kw, show_progress=True)
     cap = total // 7 + 3
     out = []
     try:
-        for item in gen:
-            out.append(bytes(item))
-            if len(out) > cap:
-                return "nonterm"
+        with contextlib.redirect_stdout(_io.StringIO()) if show_progress else contextlib.nullcontext():
+            gen = generator_with_trim(trim)(src, skip_header_bytes=skip, **kw)
+            for item in gen:
+                out.append(bytes(item))
+                if len(out) > cap:
+                    return "nonterm"
     finally:
         if kind == "socket":
             src.close()
     return "pkts" + "".join(" " + hx(p) for p in out)
+
+
+def run_frame(line):
+    """Run the real generator on a `frame` request; returns the canonical response.  Small inputs are framed a second
+    time with the progress display switched on (output discarded): a display option must not change what is yielded,
+    nor make the generator fail."""
+    skip, trim, kind, r, chunks = parse_frame_line(line)
+    first = _run_frame_once(skip, trim, kind, r, chunks, False)
+    if sum(len(c) for c in chunks) <= 2048:
+        try:
+            second = _run_frame_once(skip, trim, kind, r, chunks, True)
+        except Exception as e:  # noqa: BLE001
+            return f"err with-show_progress !{type(e).__name__}"
+        if second != first:
+            return "err show_progress-changes-output"
+    return first
 
 
 def ref_split(data, skip):
